@@ -73,10 +73,27 @@ pub fn probe_cell(tid: usize, code: &str, f: impl FnOnce() -> u64) -> Option<Str
     }
 }
 
+/// A schedule entry `WEAK + tid` is the turn of thread `tid` in which a `compare_exchange_weak` fails spuriously (if that
+/// is the thread's next atomic operation; otherwise it is an ordinary turn). Written `f<tid>` in the op language.
+pub const WEAK: usize = 1 << 20;
+
+/// `0,1,f0,2` → thread ids, `f<tid>` as `WEAK + tid`
+pub fn parse_schedule(s: &str) -> Vec<usize> {
+    s.split(',')
+        .filter(|x| !x.is_empty())
+        .filter_map(|x| match x.strip_prefix('f') {
+            Some(t) => t.parse::<usize>().ok().map(|t| WEAK + t),
+            None => x.parse().ok(),
+        })
+        .collect()
+}
+
 struct St {
     turn: Option<usize>,
     at_yield: Vec<bool>,
     done: Vec<bool>,
+    /// the turn just granted to the thread is one in which a weak compare-exchange fails spuriously
+    weak: Vec<bool>,
 }
 struct Shared {
     m: Mutex<St>,
@@ -124,7 +141,7 @@ pub fn run_scheduled_full(
     let _busy = crate::world::Busy::new();
     let n = bodies.len();
     let sh = Arc::new(Shared {
-        m: Mutex::new(St { turn: None, at_yield: vec![false; n], done: vec![false; n] }),
+        m: Mutex::new(St { turn: None, at_yield: vec![false; n], done: vec![false; n], weak: vec![false; n] }),
         cv: Condvar::new(),
     });
     let mut handles = Vec::new();
@@ -135,6 +152,8 @@ pub fn run_scheduled_full(
             tower_resilience_core::verif::set_yield_hook(Some(Box::new(move || {
                 let mut st = sh3.m.lock().unwrap();
                 st.at_yield[tid] = true;
+                // a weak turn whose operation was not a weak compare-exchange was an ordinary turn
+                st.weak[tid] = false;
                 sh3.cv.notify_all();
                 while st.turn != Some(tid) {
                     st = sh3.cv.wait(st).unwrap();
@@ -155,8 +174,18 @@ pub fn run_scheduled_full(
                     st.at_yield[tid] = false;
                 })));
             }
+            #[cfg(weak_hook)]
+            {
+                let sh5 = sh2.clone();
+                tower_resilience_core::verif::set_weak_fail_hook(Some(Box::new(move || {
+                    let mut st = sh5.m.lock().unwrap();
+                    std::mem::replace(&mut st.weak[tid], false)
+                })));
+            }
             install_observer(tid);
             let r = std::panic::catch_unwind(std::panic::AssertUnwindSafe(body));
+            #[cfg(weak_hook)]
+            tower_resilience_core::verif::set_weak_fail_hook(None);
             tower_resilience_core::verif::set_observer(None);
             tower_resilience_core::verif::set_yield_hook(None);
             tower_resilience_core::verif::set_inner_yield_hook(None);
@@ -176,10 +205,15 @@ pub fn run_scheduled_full(
         while !quiescent(&st) {
             st = sh.cv.wait(st).unwrap();
         }
+        let (want, weak) = match want {
+            Some(t) if t >= WEAK => (Some(t - WEAK), true),
+            w => (w, false),
+        };
+        let sfx = if weak { " weak" } else { "" };
         let tid = match want {
             Some(t) => {
                 if t >= n || st.done[t] {
-                    trace.push(format!("skip {}", t));
+                    trace.push(format!("skip {}{}", t, sfx));
                     on_turn(trace.last().unwrap());
                     return true;
                 }
@@ -190,8 +224,9 @@ pub fn run_scheduled_full(
                 None => return false,
             },
         };
-        trace.push(format!("step {}", tid));
+        trace.push(format!("step {}{}", tid, sfx));
         on_turn(trace.last().unwrap());
+        st.weak[tid] = weak;
         st.turn = Some(tid);
         sh.cv.notify_all();
         true
